@@ -261,11 +261,12 @@ def build(tier):
     vcs += lemmas()
     import tspec
     import cspec
+    import sspec
     tv, tf = tspec.build()
     vcs += tv
     fns += tf
     return {
-        'targets': cspec.build(), 'vcs': vcs, 'functions': fns,
+        'targets': cspec.build() + sspec.build(), 'vcs': vcs, 'functions': fns,
         'decided': [
             'index/index0/size/dims0 and every recursion level of get_index/get_index0/product/get_dims0 for ranks 1..5 equal the row-major spec functions; no intermediate overflows given suffix products <= 2^62',
             'spec-function lemmas: row-major offset is injective on the index box, onto [0,size), lexicographically monotone',
@@ -294,10 +295,18 @@ def build(tier):
             'pointer level (CBMC, ranks 1..3): in tvector / ttensor / tmatrix / tslice the real expression ptr + offset0(..) stays inside the array object of size() doubles and the mapped range '
             '[pointer, pointer + extent) is addressable memory of that object; operator()(index) returns data() + index inside the object. The offsets\' contracts are ASSUMED there exactly as '
             'proved on the SMT side: the C requires-clause is generated from the same python clause functions (tmodel.ens_view / ens_slice) with the C names substituted',
+            'storage.h on REAL heap objects (CBMC, rank 1, double; specs/C16/storage.h, sspec.py): every constructor (default, sizes, dims, converting, copy, move), every assignment operator '
+            '(owning = constant / mutable mapping view, copy, move; mapping = owning / mapping / constant mapping, move), resize(sizes) / resize(dims), data() of tensor_vector_storage_t, '
+            'tensor_carray_storage_t, tensor_marray_storage_t, tensor_base_t (dims, size, _resize, constructors, assignment) and the converting constructors / operator= of tensor_t: after the '
+            'conversion the destination has the source\'s dims, destination element i == the source\'s element i AS IT WAS BEFORE THE CALL (ghost index), an owning destination owns live memory '
+            'of exactly size() coefficients distinct from the source\'s block, a mapping destination aliases the source\'s data pointer, resize keeps block and contents when the size is '
+            'unchanged; every access under --pointer-check (no read of released memory).  Owning = view is additionally checked with the source view INSIDE the destination\'s own buffer '
+            '(t = t.slice(b, e), t = std::as_const(t).slice(b, e); ghost offset) and owning copy / move SELF-assignment, mapping = mapping with source range == destination range',
             'GENUINE DEFECT kept as failing obligations (tensor_t<R>::tslice/callee offset0 ASSERTED precondition ...): tslice admits begin == end == dims[0] (its own assert: begin <= end <= '
             'size<0>()) but then calls offset0(begin), whose assert (get_index0: index < dims[0]) rejects it; t.slice(n, n) and empty.slice(0, 0) abort in debug builds. The arithmetic itself is '
             'right (all other tslice obligations are proved for the whole range through the end-inclusive contract of offset0)'],
-        'not_decided': ['storage conversions / copy semantics between owning and mapping storages (C++ object semantics)', 'summed-area table VALUES for ranks >= 2 and for floating-point outputs',
+        'not_decided': ['storage conversions for ranks >= 2 (the storage classes are rank-generic text; the CBMC targets instantiate rank 1, where size() is the extent itself), '
+                        'implicit member destruction (~tensor_vector_storage_t has no statement in the AST), allocation failure (std::bad_alloc path)', 'summed-area table VALUES for ranks >= 2 and for floating-point outputs',
                         'Eigen Map construction itself (map_vector / map_matrix / map_tensor are constructors: their result is modelled as (pointer, extent))',
                         'detail::copy on rank >= 2 tensors (assigns tensor_map_t temporaries: object semantics) -- in the three-tensor remove_if target it is an ASSUMED contract (row idst := row isrc, rows in range checked)',
                         'make_dims / cat_dims (aggregate initialisation of std::array)', 'tensor.h numeric helpers (zero, full, random, min, max, ... : Eigen expressions over vector())'],
@@ -316,6 +325,11 @@ def build(tier):
                         'remove_if: op is a pure function of the index (libnano\'s callers read tensors that remove_if is compacting, but only at positions >= curr, which are still original); '
                         'all tensors passed together have the same size<0>() (true of the three call sites: slices [0, m_size) of equally long buffers)',
                         'integral_t<1>::get: tensors of at most 10^6 elements (bound on the symbolic array length; keeps |running sum| <= 2^31 * 10^6 < 2^63)',
+                        'Eigen vector model {heap block, length} (ASSUMED, truthful about the order of effects; specs/C16/storage.h): vector(n) allocates; vector(map) / vector(v) allocate fresh storage '
+                        'THEN copy; v = map / v = w release + allocate when the sizes differ THEN copy from the source pointer; v = std::move(w) and swap exchange the blocks; resize(n) releases + '
+                        'allocates when the size changes; ~vector releases; map = map needs equal lengths and no partial overlap (the source range is the destination range itself or a separate block); '
+                        'a copy reads the WHOLE source range (asserted readable at that moment) and is tracked at the ghost index; allocation does not fail (std::bad_alloc path out of scope)',
+                        'storage targets: tensors of at most 10^6 elements; the moved-from state of an owning storage is unspecified (not constrained); owning storages of rank 1 (size() == dims[0])',
                         'CBMC pointer shell: the ghost results of offset0 / size(dims0) / the slice extent satisfy the SMT-proved clauses (generated from the same clause functions) and lie in [0, size]'],
         'trusted': ['std::get<I>(std::array) returns element I', 'std::array::fill', 'std::array::operator[] with a constant index', 'range-based for over std::array<T, N> runs exactly N iterations in index order'],
     }
@@ -346,6 +360,10 @@ def replay(rp):
     out = {'reproduced': False, 'runs': []}
     if 'tensor_t<' in rp.get('target', ''):
         return replay_tensor(rp, out)
+    if rp.get('target', '').startswith('storage_'):
+        return replay_storage(rp, out)
+    if rp.get('target', '').startswith('integral1_get'):
+        return replay_scenarios(out, [['integral8', '100', '100'], ['integral8', '-128', '-128', '5'], ['integral8', '1', '2', '3']])
     exe = replaylib.build_header_only('replay/C16_replay.cpp', 'C16_replay')
     for fo in rp['failed_obligations']:
         model = replaylib.parse_model((fo.get('counterexample') or {}).get('model', ''))
@@ -375,6 +393,8 @@ def replay_tensor(rp, out):
     large to allocate are replaced by a small shape with the same relation between begin, end and dims[0]"""
     import replaylib
     import subprocess
+    if 'indexed' in rp.get('target', ''):
+        return replay_scenarios(out, [['gather']])
     if 'slice' not in rp.get('target', ''):
         return out
     exe = replaylib.build_header_only('replay/C16_tensor_replay.cpp', 'C16_tensor_replay', extra=['-UNDEBUG', '-O0'])
@@ -397,5 +417,52 @@ def replay_tensor(rp, out):
         out['runs'].append({'obligation': fo['id'], 'dims': dims, 'begin': b, 'end': e, 'exit': r.returncode, 'output': r.stdout.strip(),
                             'assertion': r.stderr.strip()[-300:] if aborted else None})
         if aborted or r.returncode == 1:
+            out['reproduced'] = True
+    return out
+
+
+def replay_storage(rp, out):
+    """storage conversion obligations: owning = view OF ITSELF on the real tensor_mem_t, built with AddressSanitizer; the
+    verifier's sizes (ns, nv_off, no) when the trace has them, then a few fixed shapes"""
+    import replaylib
+    import subprocess
+    tgt = rp.get('target', '')
+    if 'assign' not in tgt or not ('_alias' in tgt or 'vs_assign' in tgt or 't_mem_assign' in tgt):
+        return out
+    kind = 'const' if ('assign_c' in tgt or 'cmap' in tgt) else 'mut'
+    exe = replaylib.build_header_only('replay/C16_tensor_replay.cpp', 'C16_tensor_replay_asan', extra=['-O1', '-g', '-fsanitize=address'])
+    cases = []
+    for fo in rp['failed_obligations']:
+        tr = fo.get('counterexample') or {}
+        vals = {}
+        for k, v in tr.items():
+            nm = k.split('::')[-1]
+            if nm in ('ns', 'no', 'nv_off', 'nv_alias'):
+                try:
+                    vals[nm] = int(str(v).rstrip('l'))
+                except ValueError:
+                    pass
+        if {'ns', 'no', 'nv_off'} <= set(vals) and 0 < vals['ns'] <= 10 ** 6 and 0 <= vals['nv_off'] and vals['nv_off'] + vals['no'] <= vals['ns']:
+            cases.append((vals['ns'], vals['nv_off'], vals['nv_off'] + vals['no']))
+    for c in cases[:3] + [(8, 0, 3), (24, 6, 15), (100000, 0, 37000)]:
+        r = subprocess.run([exe, 'selfview', kind] + [str(x) for x in c], capture_output=True, text=True, timeout=120)
+        asan = 'AddressSanitizer' in r.stderr
+        out['runs'].append({'expression': 't = std::as_const(t).slice(b, e)' if kind == 'const' else 't = t.slice(b, e)', 'size': c[0], 'begin': c[1], 'end': c[2],
+                            'exit': r.returncode, 'output': r.stdout.strip(), 'sanitizer': (re.search(r'AddressSanitizer: [^\n]*', r.stderr).group(0) if asan else None)})
+        if r.returncode != 0:
+            out['reproduced'] = True
+            break
+    return out
+
+
+def replay_scenarios(out, argvs):
+    """fixed native scenarios of the release build (the obligation's clause evaluated on the real code)"""
+    import replaylib
+    import subprocess
+    exe = replaylib.build_header_only('replay/C16_tensor_replay.cpp', 'C16_tensor_replay_rel')
+    for a in argvs:
+        r = subprocess.run([exe] + a, capture_output=True, text=True, timeout=60)
+        out['runs'].append({'scenario': ' '.join(a), 'exit': r.returncode, 'output': r.stdout.strip()})
+        if r.returncode == 1:
             out['reproduced'] = True
     return out
